@@ -129,10 +129,16 @@ func runCheck(ld *Loaded, db *SpecDB, work string, t0 time.Time) int {
 	{
 		var rwg sync.WaitGroup
 		sem := make(chan struct{}, numWorkers()/2+1)
+		retried := 0
 		for _, ob := range all {
 			gaveUp := ob.Status == "unknown" || (ob.Status == "failed" && strings.Contains(ob.Backend, "(qf-relaxed)"))
 			if !gaveUp || ob.Expect != "unsat" || ob.File == "" {
 				continue
+			}
+			// a tree on which dozens of obligations give up is not rescued by patience; the retry
+			// exists for the odd slow proof on a loaded machine
+			if retried++; retried > 32 {
+				break
 			}
 			if _, err := os.Stat(ob.File); err != nil {
 				continue
